@@ -6,6 +6,7 @@ From Coq Require Import List NArith ZArith.
 From TarsV Require Import Base.Hex Gen.Consts Select.Selectors Select.Hist Select.WeightProofs Select.SelProofs Select.RingProofs Select.Manager Select.ManagerProofs.
 From TarsV Require Xlate.ConHashEquiv.
 From TarsV Require Xlate.ChWeightEquiv.
+From TarsV Require Import Gen.SelRebuild Select.NamingProofs.
 Import ListNotations.
 
 (* deterministic: a hash-routed selection does not change the selector and does not depend on any random draw *)
@@ -117,3 +118,22 @@ Theorem C14_manager_enableWeight_from_source : forall e0 l, weight_mode (e0 :: l
   (forall e, In e (e0 :: l) -> wty e = wty e0) /\ Gen.Translated.tr_mgr_enableWeight (wty e0) = Xlate.GoSem.Return true.
 Proof. exact Xlate.ChWeightEquiv.weight_mode_enableWeight. Qed.
 Print Assumptions C14_manager_enableWeight_from_source.
+
+(* the names of the virtual nodes, with the format string read from the CURRENT source of ConsistentHash.addLocked
+   (Gen/SelRebuild.v: gen_vnode_format, "%s_%d"): different (host, round) pairs have different names, whatever bytes the
+   host consists of ... *)
+Theorem C14_vnode_names_injective : forall h1 i1 h2 i2, vname h1 i1 = vname h2 i2 -> h1 = h2 /\ i1 = i2.
+Proof. exact NamingProofs.vname_inj. Qed.
+Print Assumptions C14_vnode_names_injective.
+(* ... so NoCollision holds for EVERY universe of hosts as soon as the hash (md5-derived, abstract) sends different names to
+   different points, and with it history independence *)
+Theorem C14_naming_nocollision : forall hash4 : list N -> list N,
+  (forall s1 s2 k, In k (hash4 s1) -> In k (hash4 s2) -> s1 = s2) -> forall U, NoCollision (points_of_naming hash4) U.
+Proof. exact NamingProofs.naming_nocollision. Qed.
+Print Assumptions C14_naming_nocollision.
+Theorem C14_naming_history_independent : forall hash4 : list N -> list N,
+  (forall s1 s2 k, In k (hash4 s1) -> In k (hash4 s2) -> s1 = s2) ->
+  forall weighted h1 h2 code, (forall e, In e (set_of_history h1) <-> In e (set_of_history h2)) ->
+  route (points_of_naming hash4) ConHash weighted h1 code = route (points_of_naming hash4) ConHash weighted h2 code.
+Proof. exact NamingProofs.naming_history_independent. Qed.
+Print Assumptions C14_naming_history_independent.
